@@ -182,17 +182,47 @@ pub struct ParamSpec {
 }
 
 impl ParamSpec {
-    /// grid; index 0 is the default so that shrinking converges to "all default"
+    fn is_float(&self) -> bool {
+        !matches!(self.dom, Dom::CountGe(_) | Dom::CountGeAmbBelow(_) | Dom::Choice(_) | Dom::Category { .. })
+    }
+    /// grid; index 0 is the default so that shrinking converges to "all default". Wherever 0.0 is on the grid of a
+    /// float parameter, -0.0 is added (consistency-only value, see `expect`); wherever the smallest normal number is,
+    /// the smallest denormal is added with the same sign.
     pub fn grid(&self) -> Vec<f64> {
         let mut g = vec![self.default];
-        for v in self.inside.iter().copied().chain(self.dom.boundary(self.single)) {
-            if v.is_finite() && !g.iter().any(|w| w.to_bits() == v.to_bits()) && !(v == 0.0 && v.is_sign_negative()) {
+        let mut push = |g: &mut Vec<f64>, v: f64| {
+            if v.is_finite() && !g.iter().any(|w| w.to_bits() == v.to_bits()) {
                 g.push(v);
+            }
+        };
+        for v in self.inside.iter().copied().chain(self.dom.boundary(self.single)) {
+            push(&mut g, v);
+        }
+        if self.is_float() {
+            let (tiny, denormal) = if self.single {
+                (f32::MIN_POSITIVE as f64, f32::from_bits(1) as f64)
+            } else {
+                (f64::MIN_POSITIVE, f64::from_bits(1))
+            };
+            let snapshot = g.clone();
+            for v in snapshot {
+                if v.to_bits() == 0 {
+                    push(&mut g, -0.0);
+                } else if v == tiny {
+                    push(&mut g, denormal);
+                } else if v == -tiny {
+                    push(&mut g, -denormal);
+                }
             }
         }
         g
     }
+    /// expectation from the documented range; `-0.0` is consistency-only everywhere (the docs say nothing about the
+    /// sign of zero, linfa's guards mix sign-bit tests and comparisons)
     pub fn expect(&self, v: f64) -> Expect {
+        if self.is_float() && v == 0.0 && v.is_sign_negative() {
+            return Expect::Amb;
+        }
         self.dom.expect(v)
     }
     pub fn is_safe(&self, v: f64) -> bool {
